@@ -154,7 +154,9 @@ impl<'a> StateMachine<'a> {
                 self.source = detect_source(&self.line);
                 // Handle (rare) plain `diff -u file1 file2` header. Done here to avoid having
                 // to introduce and handle a Source::DiffUnifiedAmbiguous variant everywhere.
-                if self.line.starts_with("--- ") {
+                // (Also when the output starts with the `diff -u file1 file2` line itself: the
+                // `--- ` lines of its hunks are just as ambiguous.)
+                if self.source == Source::DiffUnified {
                     self.minus_line_counter = AmbiguousDiffMinusCounter::prepare_to_count();
                 }
             }
